@@ -169,7 +169,7 @@ def replay(ctx, case):
 
 
 MANIFEST = dict(
-    text="Proof (PARTIAL): for every n and every table of angles the level-by-level walk of top-down preparation maps |0..0> to the amplitude tree of the angles (C01_topdown_amplitudes), and the angle tree computed from any state tree (zero sub-trees included) reproduces magnitudes and phases relative to the root (C01_amp_tree); the multiplexers inside each level are C13's theorems. Tie: the angle tree computed by the implementation is logged, its relations to the input (the theorem's premises) are checked, and the flattened gate list of TopDownInitialize is compared inside Coq with the Gallina model TopDownModel.topdown_q run on that tree (n<=6/9, 10 data families). The Schmidt-based, UCG/UCGE, isometry-based and bounded-approximation initializers are covered by the algebraic theorems of C02/C03/C07/C09/C12 plus monitors and by direct evaluation of the state vector for every class and option.",
-    note='Modelled, not verified: numpy/cmath polar form, Qiskit circuit container and global phase, the list-level composition of the per-level theorems into one statement about the gate list (in progress), all non-top-down initializers (evaluated).',
+    text="Proof (PARTIAL): for every n and every table of angles the level-by-level walk of top-down preparation maps |0..0> to the amplitude tree of the angles (C01_topdown_amplitudes), and the angle tree computed from any state tree (zero sub-trees included) reproduces magnitudes and phases relative to the root (C01_amp_tree); composed at list level with C13's multiplexer theorems: the GATE LIST of the executable model - the one compared with TopDownInitialize on every run - prepares the amplitude tree of its tables for every n and every rational table, all four any(angles_y)/any(angles_z) branches, the shared omitted CNOT, the reversed RZ multiplexer and the qubit placement included (C01_topdown_model), and when the tables are the angle tree of a state tree (mag, arg) it prepares mag_k e^{i(arg_k - arg_root)} (C01_topdown_prepares_state). Tie: the angle tree computed by the implementation is logged, its relations to the input (the premises of C01_topdown_prepares_state) are checked, and the flattened gate list of TopDownInitialize is compared inside Coq with the Gallina model TopDownModel.topdown_q run on that tree (n<=6/9, 10 data families). The Schmidt-based, UCG/UCGE, isometry-based and bounded-approximation initializers are covered by the algebraic theorems of C02/C03/C07/C09/C12 plus monitors and by direct evaluation of the state vector for every class and option.",
+    note='Modelled, not verified: numpy/cmath polar form (the premises of C01_topdown_prepares_state are checked numerically on the logged trees), Qiskit circuit container and global phase, leaf rotations in (0, 1e-8] that the source skips (counted per run), all non-top-down initializers (algebraic theorems of other properties + evaluation).',
     technique='Coq proof (explicit-state invariant over levels; asin/sqrt identities) + gate-list correspondence on logged angle trees (vm_compute) + contract monitors + state-vector evaluation',
     design_ref='DESIGN.md section 4, C01')
